@@ -4,7 +4,9 @@
 mod gen;
 mod harness;
 mod model;
+mod mon_err;
 mod mon_invariant;
+mod mon_twin;
 mod mon_overlay;
 mod observe;
 mod ops;
